@@ -281,13 +281,157 @@ theorem deliver_feedAll {σ D : Type} {f : Framer M} (hs : PrefixStable f)
     deliver step s (feedAll f chunks).msgs = deliver step s (feed f [] chunks.flatten).msgs := by
   rw [feedAll_concat hs chunks hok]
 
-/-! ### The per-read trace printed by the drivers is the run the theorems talk about -/
-
 theorem feedAllFrom_err (f : Framer M) (o : Out M) (e : ErrClass) (h : o.err = some e) (cs : List Bytes) :
     feedAllFrom f o cs = o := by
   cases cs with
   | nil => rfl
   | cons c cs => simp [feedAllFrom, h]
+
+/-! ### Streams on which the run ends with an exception: messages and closure are still
+segmentation independent (only the buffer left behind in the dead connection differs) -/
+
+theorem drainAll_append_ok {f : Framer M} (hs : PrefixStable f) :
+    ∀ (n : Nat) (b x : Bytes), b.length ≤ n → (drainAll f b).err = none →
+      drainAll f (b ++ x) = (drainAll f ((drainAll f b).rest ++ x)).pre (drainAll f b).msgs := by
+  intro n
+  induction n with
+  | zero =>
+    intro b x hb hno
+    have : b = [] := List.eq_nil_of_length_eq_zero (by omega)
+    subst this
+    cases h : f.ext [] with
+    | need => rw [drainAll_need h]; simp
+    | err e => rw [drainAll_err h] at hno; simp at hno
+    | msg m r => have := hs.prog h; simp at this
+  | succ n ih =>
+    intro b x hb hno
+    cases h : f.ext b with
+    | need => rw [drainAll_need h]; simp
+    | err e => rw [drainAll_err h] at hno; simp at hno
+    | msg m r =>
+      have h' := hs.mono (x := x) h
+      have hlt := hs.prog h
+      rw [drainAll_msg hs.prog h] at hno ⊢
+      rw [drainAll_msg hs.prog h', ih r x (by omega) (by simpa using hno)]
+      simp [Out.pre]
+
+theorem drainAll_append_err {f : Framer M} (hs : PrefixStable f) :
+    ∀ (n : Nat) (b x : Bytes), b.length ≤ n → (drainAll f b).err.isSome = true →
+      (drainAll f (b ++ x)).msgs = (drainAll f b).msgs ∧ (drainAll f (b ++ x)).err.isSome = true := by
+  intro n
+  induction n with
+  | zero =>
+    intro b x hb he
+    have : b = [] := List.eq_nil_of_length_eq_zero (by omega)
+    subst this
+    cases h : f.ext [] with
+    | need => rw [drainAll_need h] at he; simp at he
+    | err e =>
+      obtain ⟨e', he'⟩ := hs.errUp (x := x) h
+      rw [drainAll_err he', drainAll_err h]; simp
+    | msg m r => have := hs.prog h; simp at this
+  | succ n ih =>
+    intro b x hb he
+    cases h : f.ext b with
+    | need => rw [drainAll_need h] at he; simp at he
+    | err e =>
+      obtain ⟨e', he'⟩ := hs.errUp (x := x) h
+      rw [drainAll_err he', drainAll_err h]; simp
+    | msg m r =>
+      have h' := hs.mono (x := x) h
+      have hlt := hs.prog h
+      rw [drainAll_msg hs.prog h] at he ⊢
+      rw [drainAll_msg hs.prog h']
+      obtain ⟨e1, e2⟩ := ih r x (by omega) (by simpa using he)
+      exact ⟨by simp [e1], by simpa using e2⟩
+
+theorem feedAllFrom_msgs {f : Framer M} (hs : PrefixStable f) :
+    ∀ (chunks : List Bytes) (ms : List M) (buf : Bytes), f.ext buf = .need →
+      (feedAllFrom f ⟨ms, buf, none⟩ chunks).msgs = ms ++ (drainAll f (buf ++ chunks.flatten)).msgs ∧
+      (feedAllFrom f ⟨ms, buf, none⟩ chunks).err.isSome = (drainAll f (buf ++ chunks.flatten)).err.isSome := by
+  intro chunks
+  induction chunks with
+  | nil => intro ms buf hb; simp [feedAllFrom, drainAll_need hb]
+  | cons c cs ih =>
+    intro ms buf hb
+    have hassoc : buf ++ (c :: cs).flatten = (buf ++ c) ++ cs.flatten := by simp
+    rw [hassoc]
+    simp only [feedAllFrom]
+    cases he : (drainAll f (buf ++ c)).err with
+    | none =>
+      have hrest := drainAll_rest_need hs.prog (buf ++ c).length (buf ++ c) (Nat.le_refl _) he
+      have hst : (feed f buf c).pre ms
+          = ⟨ms ++ (drainAll f (buf ++ c)).msgs, (drainAll f (buf ++ c)).rest, none⟩ := by
+        rw [feed_eq_drainAll]; exact Out.ext' rfl rfl he
+      rw [hst, drainAll_append_ok hs _ _ _ (Nat.le_refl _) he]
+      obtain ⟨i1, i2⟩ := ih (ms ++ (drainAll f (buf ++ c)).msgs) _ hrest
+      exact ⟨by rw [i1]; simp, by rw [i2]; simp⟩
+    | some e =>
+      have hsome : (drainAll f (buf ++ c)).err.isSome = true := by rw [he]; rfl
+      obtain ⟨a1, a2⟩ := drainAll_append_err hs _ (buf ++ c) cs.flatten (Nat.le_refl _) hsome
+      have herr : ((feed f buf c).pre ms).err = some e := by rw [feed_eq_drainAll]; simpa using he
+      rw [feedAllFrom_err f _ e herr, a1, a2, feed_eq_drainAll]
+      simp [he]
+
+/-- **Segmentation independence without any hypothesis on the stream.**  For every byte
+    stream (valid or not) and every segmentation: the messages delivered are those of the
+    unsplit run, and the connection ends closed by an exception iff the unsplit run does. -/
+theorem feedAll_concat_msgs {f : Framer M} (hs : PrefixStable f) (hnil : f.ext [] = .need)
+    (chunks : List Bytes) :
+    (feedAll f chunks).msgs = (feed f [] chunks.flatten).msgs ∧
+    (feedAll f chunks).err.isSome = (feed f [] chunks.flatten).err.isSome := by
+  have := feedAllFrom_msgs hs chunks [] [] hnil
+  simpa [feedAll, feed_eq_drainAll] using this
+
+/-! ### A consumer that raises (propagating transports) -/
+
+theorem withConsumer_prefixStable {f : Framer M} (hs : PrefixStable f) (bad : M → Bool) :
+    PrefixStable (withConsumer f bad) where
+  mono := by
+    intro b x m r h
+    simp only [withConsumer] at h ⊢
+    cases hb : f.ext b with
+    | need => rw [hb] at h; cases h
+    | err e => rw [hb] at h; cases h
+    | msg m' r' =>
+      rw [hb] at h
+      rw [hs.mono (x := x) hb]
+      by_cases hbad : bad m' = true
+      · simp [hbad] at h
+      · simp only [hbad] at h ⊢
+        cases h; rfl
+  prog := by
+    intro b m r h
+    simp only [withConsumer] at h
+    cases hb : f.ext b with
+    | need => rw [hb] at h; cases h
+    | err e => rw [hb] at h; cases h
+    | msg m' r' =>
+      rw [hb] at h
+      by_cases hbad : bad m' = true
+      · simp [hbad] at h
+      · simp only [hbad] at h
+        cases h; exact hs.prog hb
+  errUp := by
+    intro b x e h
+    simp only [withConsumer] at h ⊢
+    cases hb : f.ext b with
+    | need => rw [hb] at h; cases h
+    | err e' =>
+      obtain ⟨e'', he''⟩ := hs.errUp (x := x) hb
+      exact ⟨e'', by rw [he'']⟩
+    | msg m' r' =>
+      rw [hb] at h
+      rw [hs.mono (x := x) hb]
+      by_cases hbad : bad m' = true
+      · exact ⟨.consumer, by simp [hbad]⟩
+      · simp [hbad] at h
+
+theorem withConsumer_nil {f : Framer M} (bad : M → Bool) (hnil : f.ext [] = .need) :
+    (withConsumer f bad).ext [] = .need := by
+  simp [withConsumer, hnil]
+
+/-! ### The per-read trace printed by the drivers is the run the theorems talk about -/
 
 /-- `feedTrace` lists, read by read, exactly what `feedAllFrom` accumulates: messages are
     the concatenation of the per-read messages, buffer and error are those of the last read -/
